@@ -28,7 +28,7 @@ func init() { core.Register(c16{}) }
 
 func (c16) ID() string { return "C16" }
 func (c16) Rule() string {
-	return "plans: a plugin root at depth 1-4 inside a sandbox with precious files in every ancestor and sibling, sentinel executables where traversal names resolve to, some installed plugins; 1-6 operations of Get+GetMetadata / Uninstall / Install from file / Install from directory / List / end-to-end Verify of a signature whose verification-plugin attribute carries the name, with names from a traversal grammar (.. runs of every depth with tails, '.', empty, separators, a/../b, NUL, 5 KB) and plain names. non-trivial: at least one operation used a name that is not one path component; distinct: hash of (operation kind, name, outcome class) sequence and the intercepted calls"
+	return "plans: a plugin root at depth 1-4 inside a sandbox with precious files in every ancestor and sibling, sentinel executables where traversal names resolve to, some installed plugins; 1-6 operations of Get+GetMetadata / Uninstall / Install from file / Install from directory / List / end-to-end Verify of a signature whose verification-plugin attribute carries the name, (only an installation may execute a file outside <root>/<name>), with names from a traversal grammar (.. runs of every depth with tails, '.', empty, separators, a/../b, NUL, 5 KB) and plain names. non-trivial: at least one operation used a name that is not one path component; distinct: hash of (operation kind, name, outcome class) sequence and the intercepted calls"
 }
 func (c16) Components() map[string]string {
 	return map[string]string{
